@@ -281,7 +281,8 @@ Section Spec.
     | MStr x, MStr y => Some (bytes_contains x y)
     | MArr x, MArr y => Some (forallb (fun q => existsb (fun p => match s_contains p q with Some true => true | _ => false end) x) y)
     | MObj x, MObj y =>
-        Some (forallb (fun kq : bytes * mv =>
+        Some (negb (Nat.ltb (List.length x) (List.length y)) &&   (* an object with fewer keys contains no object with more *)
+              forallb (fun kq : bytes * mv =>
                 existsb (fun kp : bytes * mv =>
                   bytes_eqb (fst kp) (fst kq) && match s_contains (snd kp) (snd kq) with Some true => true | _ => false end) x) y)
     | _, _ => if is_mnum a && is_mnum b then Some (match num_cmp a b with Eq => negb (fis_nan (dbl a)) | _ => false end)
@@ -323,7 +324,7 @@ Section Spec.
     | Some l =>
         match d with
         | None => Some (SVal (MArr (flat_map (s_flat None) l)))
-        | Some (MInt z) => if z <? 0 then Some SErr
+        | Some (MInt z) => if z <? -1000 then None else if z <? 0 then Some SErr
                            else if z <? 1000 then Some (SVal (MArr (flat_map (s_flat (Some (Z.to_nat z))) l)))
                            else None
         | Some (MFlt _) => None           (* fractional depth: not documented *)
@@ -544,8 +545,26 @@ Section Spec.
     | _ => Some SErr
     end.
 
+  (* tonumber: numbers are returned; a string must be a number text of the jq lexer
+     ([+-]? digits [. digits] [e [+-] digits], a leading or trailing dot allowed) and is then the number it
+     writes: an integer when it has integer syntax, otherwise the double ParseFloat reads *)
   Definition s_tonumber (a : mv) : option sres :=
-    match a with MInt _ | MFlt _ => Some (SVal a) | MStr _ => None | _ => Some SErr end.
+    match a with
+    | MInt _ | MFlt _ => Some (SVal a)
+    | MStr t => Some (if valid_number_text t then SVal (denote_num (NLit t)) else SErr)
+    | _ => Some SErr
+    end.
+  (* min_by / max_by on (values, keys) of equal length: the value of the FIRST minimal / LAST maximal key *)
+  Definition s_minmax_by (is_min : bool) (a x : mv) : sres :=
+    match a, x with
+    | MArr vs, MArr ks =>
+        if negb (Nat.eqb (List.length vs) (List.length ks)) then SErr
+        else match combine vs ks with
+             | [] => SVal MNull
+             | p :: r => SVal (fst (fold_left (fun m y => if Bool.eqb (mgtb (snd m) (snd y)) is_min then y else m) r p))
+             end
+    | _, _ => SErr
+    end.
   Definition s_abs (a : mv) : sres :=
     match a with MInt z => SVal (MInt (Z.abs z)) | MFlt f => SVal (MFlt (fabs f)) | _ => SErr end.
   Definition s_cmp (test : comparison -> bool) (a b : mv) : sres := SVal (MBool (test (mcmp a b))).
@@ -578,6 +597,7 @@ Section Spec.
         else if is "ltrimstr" then Some (s_str2 (fun s t => MStr (s_ltrimstr s t)) a x)
         else if is "rtrimstr" then Some (s_str2 (fun s t => MStr (s_rtrimstr s t)) a x)
         else if is "trimstr" then Some (s_str2 (fun s t => MStr (s_rtrimstr (s_ltrimstr s t) t)) a x)
+        else if is "_min_by" then Some (s_minmax_by true a x) else if is "_max_by" then Some (s_minmax_by false a x)
         else if is "flatten" then s_flatten a (Some x)
         else if is "getpath" then match x with MArr p => s_getpath p a | _ => Some SErr end
         else if is "split" then match a, x with
